@@ -97,7 +97,7 @@ impl Parser {
 
         if !expected_return_type.eq_complex(
             &Cow::Borrowed(supplied_type),
-            &TypecheckFlags::use_class(class_type).lhs_unwrap(true),
+            &TypecheckFlags::use_class(class_type),
         ) {
             return Err(vec![new_err(
                 input.as_span(),
